@@ -54,6 +54,11 @@ func runC06(w *World, r *Report) {
 	if ak, ik, ok := elementKinds(w); ok {
 		runWirelen(w, r, ak, ik)
 	}
+	r.Rule("errfail", "in the codecs a failed step fails the whole: the branch for a non-nil error returns a non-nil error (no log-and-continue that leaves an element out while sizes still count it)", 100)
+	errFailRule(w, r, "errfail", func(fi *FuncInfo) bool {
+		n := fi.Pkg.Types.Name()
+		return n == "openflow13" || n == "protocol" || n == "common"
+	})
 	r.Rule("childerr", "the error of every encode call that can fail is read before the child's bytes are used (a child that produced nothing makes the parent fail instead of being left out silently)", 60)
 	childErrRule(w, r, "childerr")
 	r.Rule("noconsume", "size functions, encoders and read accessors (Get*, Header, String) hand nothing reachable from the value to outside code that could change it (a drained reader, a re-sorted list): what was added stays in the message", 200)
